@@ -589,29 +589,33 @@ def random_project2(rng: random.Random) -> Dict[str, Any]:
             path = ".".join(_path(mods, dm))
             form = rng.choice(["from", "from", "from_as", "import", "import_as", "star", "from_rel", "from_pkg"])
             r = rel(dm)
-            if form == "from_rel" and r:
+            # a module binds each name at most once: the ways pydoctor departs from Python when a name is bound twice (import then
+            # definition, definition then import, two imports, alias to a name redefined later, ...) are recorded findings carried
+            # by the deterministic families T5 / T15; the random corpus mixes everything else
+            def free(n: str) -> bool:
+                return n.split(".")[0] not in {x.split(".")[0] for x in local}
+            if form == "from_rel" and r and free(dn):
                 ops.append(frm(r[1], dn, lvl=r[0])); local[dn] = dk
-            elif form == "from_pkg" and r:
+            elif form == "from_pkg" and r and free(r[1]):
                 ops.append(frm("", r[1], lvl=r[0])); local[r[1] + "." + dn] = dk
-            elif form == "from_as":
+            elif form == "from_as" and free("R" + dn):
                 ops.append(frm(path, dn, "R" + dn)); local["R" + dn] = dk
-            elif form == "import":
+            elif form == "import" and free(path):
                 ops.append(imp(path)); local[path + "." + dn] = dk
             elif form == "import_as":
                 ops.append(imp(path, "z%d" % len(ops))); local["z%d.%s" % (len(ops) - 1, dn)] = dk
-            elif form == "star" and not mods[dm - 1]["hasAll"]:
+            elif form == "star" and not mods[dm - 1]["hasAll"] and all(free(n2) for (m2, n2, k2) in defs if m2 == dm) \
+                    and len({n2 for (m2, n2, k2) in defs if m2 == dm}) == len([1 for (m2, n2, k2) in defs if m2 == dm]):
                 ops.append(star(path))
                 for (m2, n2, k2) in defs:
                     if m2 == dm and not n2.startswith("_"):
                         local[n2] = k2
-            else:
+            elif form in ("from",) and free(dn):
                 ops.append(frm(path, dn)); local[dn] = dk
         mine: List[Tuple[str, str]] = []
         for _ in range(rng.randint(1, 3)):
             kind = rng.choice(["class", "class", "class", "def", "var", "alias"])
-            name = rng.choice(pool)
-            if kind == "var" and local.get(name) in ("class", "def"):
-                continue            # 'X = 1' after 'class X': recorded finding assignment-after-definition-ignored (C03), not generated here
+            name = rng.choice([n for n in pool if n.split(".")[0] not in {x.split(".")[0] for x in local}] or ["Z%d" % len(ops)])
             classes = [n for n, k in local.items() if k == "class"]
             if kind == "class":
                 bases = rng.sample(classes, k=min(len(classes), rng.choice([0, 1, 1, 2])))
@@ -638,7 +642,8 @@ def random_project2(rng: random.Random) -> Dict[str, Any]:
             elif local:
                 src = rng.choice(sorted(local))
                 an = "al" + name
-                ops.append(alias(an, src)); local[an] = local[src]
+                if an not in local:
+                    ops.append(alias(an, src)); local[an] = local[src]
         if rng.random() < 0.12 and i + 1 < len(plan) and any(k == "class" and "." not in n and n in [x for x, _ in mine] for n, k in local.items()):
             # an import for the type checker only, of a module defined later
             ops.insert(0, {**frm("p.fwd%d" % (i + 1), "Later"), "tc": True})
